@@ -11,7 +11,7 @@ from ..model import compare_export
 
 
 def check_doc(acc, job, with_key=True):
-    m = D.materialise(job, with_key=with_key)
+    m = D.materialise(job, with_key=with_key, cap=16 if len(job[0]) > 6 else 6)
     if m is None:
         return
     text = m.text()
@@ -89,7 +89,7 @@ def run(ctx):
     if not quick:
         jobs += list(D.deviation_docs([['**kern', '**text']], 3, (ctx.seed,), menu=['d', 'z', 'S0', 'J0', 'g', 'i']))
     jobs += token_skeleton_jobs(ctx.seed)
-    longs = D.long_docs(ctx.seed) + D.long_docs(ctx.seed + 4)
+    longs = D.long_docs(ctx.seed) + D.long_docs(ctx.seed + 4) + D.wide_docs(ctx.seed) + D.wide_docs(ctx.seed + 1)
     ctx.pmap(_job, [[j] for j in longs] + list(X.chunks(jobs, 150)), chunksize=1)
 
 
